@@ -98,6 +98,34 @@ def gen_stmts(c, n, depth, in_loop=False):
                 out.append(("if", ("bin", "!=", e, ("nil",)), [("print", ("get", e))], [("print", S("is-nil"))]) if e[0] == "var" else ("print", ("bin", "==", e, ("nil",))))
             else:
                 out.append(("print", ("get", e)))
+        elif ch == "or" and g.chance(35):
+            # a LITERAL on the left of `or` - nil itself or a present value - with a fallback that is a call (which must run
+            # exactly when the left side is nil), a variable or another `or`; as a printed value, an initialiser (typed and
+            # untyped) and a list element
+            left_nil = g.chance(65)
+            lit = ("nil",) if left_nil else (I(g.int(0, 9)) if base == "int" else S("lit"))
+            c.seen.add(("or", "nil" if left_nil else "present"))
+            g.label("or-with-literal-left:" + ("nil" if left_nil else "present"))
+            fk = g.choice(["call", "var", "nested-or"])
+            if fk == "call":
+                fb_ = fallback(c, base)
+            elif fk == "var":
+                pv = "pv%d" % c.key()
+                out.append(("decl", pv, None, I(g.int(10, 19)) if base == "int" else S("pv"), ()))
+                fb_ = V(pv)
+            else:
+                fb_ = ("or", opt_expr(c, base)[0], fallback(c, base))
+            e = ("or", lit, fb_)
+            pos = g.choice(["print", "typed-decl", "untyped-decl", "list-element"])
+            dn = "od%d" % c.key()
+            if pos == "print":
+                out.append(("print", e))
+            elif pos == "typed-decl":
+                out += [("decl", dn, base, e, ()), ("print", V(dn))]
+            elif pos == "untyped-decl":
+                out += [("decl", dn, None, e, ()), ("print", V(dn))]
+            else:
+                out += [("decl", dn, ("list", base), ("list", [e, fallback(c, base)]), ()), ("print", V(dn))]
         elif ch == "or":
             e, s = opt_expr(c, base)
             c.seen.add(("or", s))
